@@ -79,7 +79,13 @@ type keyObj struct {
 	tr   *trace.Buf
 }
 
-func msgBytes(m int) []byte { return []byte("verif-msg-" + strconv.Itoa(m)) }
+// msgBytes: message number m; every seventh message is the empty message
+func msgBytes(m int) []byte {
+	if m%7 == 3 {
+		return []byte{}
+	}
+	return []byte("verif-msg-" + strconv.Itoa(m))
+}
 
 func pkid(x *xmss.XMSS) string {
 	hh := sha256.New()
